@@ -83,6 +83,15 @@ void vf_corpus_init(void) {
     put(0xf6);
     finish("mixed tag/array/map nesting, depth %llu", depth, 0);
   }
+  /* nesting at and one beyond the default limit (for builds with another limit these are just deep / deeper inputs) */
+  for (unsigned extra = 0; extra < 2; extra++)
+    for (unsigned kind = 0; kind < 3; kind++) {
+      unsigned depth = 2048 + extra;
+      for (unsigned i = 0; i < depth; i++) put(kind == 0 ? 0x81 : kind == 1 ? 0xc2 : 0x9f);
+      put(0x00);
+      if (kind == 2) for (unsigned i = 0; i < depth; i++) put(0xff);
+      finish(kind == 0 ? "%llu nested one-element arrays" : kind == 1 ? "%llu nested tags" : "%llu nested indefinite arrays", depth, 0);
+    }
   head(6, 0xffffffffffffffffull);
   head(6, 0x100000000ull);
   head(6, 65536);
